@@ -117,10 +117,17 @@ func (p *HandlerMining) onMiningSubmit(ctx context.Context, msgTyped *m.MiningSu
 		p.consequentInvalidShareCount.Store(0)
 		p.proxy.source.GetStats().IncWeAcceptedShares()
 
+		// the share is credited with the difficulty of the job it solves: the destination's
+		// current difficulty may have changed since that job was announced
+		jobDiff, ok := dest.GetJobDiff(msgTyped.GetJobId())
+		if !ok {
+			jobDiff = dest.GetDiff()
+		}
+
 		// miner hashrate
-		p.proxy.hashrate.OnSubmit(dest.GetDiff())
+		p.proxy.hashrate.OnSubmit(jobDiff)
 		// workername hashrate
-		p.proxy.globalHashrate.OnSubmit(p.proxy.source.GetUserName(), dest.GetDiff())
+		p.proxy.globalHashrate.OnSubmit(p.proxy.source.GetUserName(), jobDiff)
 		if p.proxy.hashrate.GetTotalShares() > p.proxy.vettingShares {
 			select {
 			case <-p.proxy.vettingDoneCh:
@@ -132,7 +139,7 @@ func (p *HandlerMining) onMiningSubmit(ctx context.Context, msgTyped *m.MiningSu
 		// contract hashrate
 		p.proxy.onSubmitMutex.RLock()
 		if p.proxy.onSubmit != nil {
-			p.proxy.onSubmit(dest.GetDiff())
+			p.proxy.onSubmit(jobDiff)
 		}
 		p.proxy.onSubmitMutex.RUnlock()
 
